@@ -564,6 +564,29 @@ Section Tensor.
     unfold obsum. rewrite F, S2. reflexivity.
   Qed.
 
+  (* _calculate_density_matrix on the noiseless data of every measurement string *)
+  Lemma density_ideal n rho : 1 <= n -> trace o (2 ^ n) rho = one ->
+    exists R, density o ii n (map (fun c => (c, ideal_data n (replIZ c) rho)) (tomo_measurements n false)) = Ok R /\
+              meq (2 ^ n) R rho.
+  Proof.
+    intros Hn Ht. unfold density. rewrite mapM_map. cbn [fst snd].
+    rewrite (mapM_ok _ (fun c => (pauli_expect n rho c * kinv o (pow2 o n), kfold o pauli_mat c))).
+    2:{ intros c Hc. unfold tomo_measurements in Hc. apply strings_length_elem in Hc; [|exact Hn].
+        rewrite expectation_ideal by assumption. reflexivity. }
+    cbn [bind]. eexists. split; [reflexivity|]. intros a b Ha Hb.
+    rewrite suml_map. cbn [fst snd]. unfold tomo_measurements. rewrite kinv_pow2.
+    unfold pauli_expect.
+    rewrite (suml_ext _ _ (fun c : mstr => sumn (2 ^ n) (fun k => sumn (2 ^ n) (fun l =>
+       rho k l * (hpow n * (kfold o pauli_mat c a b * kfold o pauli_mat c l k)))))).
+    2:{ intros c _. rewrite <- sumn_mul_r, <- sumn_mul_r. apply sumn_ext. intros k _.
+        rewrite <- sumn_mul_r, <- sumn_mul_r. apply sumn_ext. intros l _. ring. }
+    rewrite suml_sumn_swap.
+    rewrite (sumn_ext _ _ (fun k => sumn (2 ^ n) (fun l => rho k l * (mid o a k * mid o b l)))).
+    - apply sumn_delta2; assumption.
+    - intros k Hk. rewrite suml_sumn_swap. apply sumn_ext. intros l Hl.
+      rewrite suml_mul_l. f_equal. apply (pauli_complete n Hn a b k l); assumption.
+  Qed.
+
   (* The reconstruction identity *)
   Theorem st_tomography_identity n req rho :
     1 <= n -> Permutation req (req_canonical n false) -> trace o (2 ^ n) rho = one ->
@@ -574,22 +597,7 @@ Section Tensor.
     rewrite (mapM_ok _ (fun c => (c, ideal_data n (replIZ c) rho))).
     2:{ intros c Hc. rewrite (dict_get_map (fun s => ideal_data n s rho)); [reflexivity|].
         apply (Permutation_in _ (Permutation_sym Hp)). apply replIZ_in_req; assumption. }
-    cbn [bind]. unfold density. rewrite mapM_map. cbn [fst snd].
-    rewrite (mapM_ok _ (fun c => (pauli_expect n rho c * kinv o (pow2 o n), kfold o pauli_mat c))).
-    2:{ intros c Hc. unfold tomo_measurements in Hc. apply strings_length_elem in Hc; [|exact Hn].
-        rewrite expectation_ideal by assumption. reflexivity. }
-    cbn [bind]. eexists. split; [reflexivity|]. intros a b Ha Hb.
-    rewrite suml_map. cbn [fst snd]. unfold tomo_measurements. rewrite kinv_pow2.
-    unfold pauli_expect.
-    rewrite (suml_ext _ _ (fun c => sumn (2 ^ n) (fun k => sumn (2 ^ n) (fun l =>
-       rho k l * (hpow n * (kfold o pauli_mat c a b * kfold o pauli_mat c l k)))))).
-    2:{ intros c _. rewrite <- sumn_mul_r, <- sumn_mul_r. apply sumn_ext. intros k _.
-        rewrite <- sumn_mul_r, <- sumn_mul_r. apply sumn_ext. intros l _. ring. }
-    rewrite suml_sumn_swap.
-    rewrite (sumn_ext _ _ (fun k => sumn (2 ^ n) (fun l => rho k l * (mid o a k * mid o b l)))).
-    - apply sumn_delta2; assumption.
-    - intros k Hk. rewrite suml_sumn_swap. apply sumn_ext. intros l Hl.
-      rewrite suml_mul_l. f_equal. apply (pauli_complete n Hn a b k l); assumption.
+    cbn [bind]. apply density_ideal; assumption.
   Qed.
 End Tensor.
 
